@@ -58,14 +58,15 @@ Section Frag.
   Hypothesis H1 : forall f i x, valid f i -> dec (f ++ x) = (x, DSome i).
   Hypothesis H2 : forall f i p, valid f i -> proper_prefix p f -> dec p = (p, DNone).
 
-  Lemma next_item : forall cs b rd f i rest bg,
+  (* general form: any further events [tl] after the chunks are left untouched *)
+  Lemma next_item_tl : forall cs b rd f i rest bg tl,
       valid f i -> Forall nonempty cs ->
       b ++ concat cs = f ++ rest ->
       (rd = false -> proper_prefix b f) ->
-      exists b' cs', next dec (mkR b false rd false) (datas cs) bg = (NItem i, mkR b' false true false, datas cs', bg)
+      exists b' cs', next dec (mkR b false rd false) (datas cs ++ tl) bg = (NItem i, mkR b' false true false, datas cs' ++ tl, bg)
                      /\ b' ++ concat cs' = rest /\ Forall nonempty cs'.
   Proof.
-    induction cs as [|c cs IH]; intros b rd f i rest bg Hv Hne Heq Hinv.
+    induction cs as [|c cs IH]; intros b rd f i rest bg tl Hv Hne Heq Hinv.
     - cbn [concat] in Heq. rewrite app_nil_r in Heq. subst b.
       destruct rd.
       + exists rest, []. rewrite next_eq. unfold attempt. cbn [rerrored rreadable reof rbuf].
@@ -74,12 +75,12 @@ Section Frag.
         rewrite !app_length in Hf. destruct y; [congruence|cbn in Hf; lia].
     - inversion Hne as [|? ? Hc Hne']; subst.
       assert (Hstep : forall b0, proper_prefix b0 f -> b0 ++ concat (c :: cs) = f ++ rest ->
-                exists b' cs', next dec (mkR b0 false false false) (datas (c :: cs)) bg = (NItem i, mkR b' false true false, datas cs', bg)
+                exists b' cs', next dec (mkR b0 false false false) (datas (c :: cs) ++ tl) bg = (NItem i, mkR b' false true false, datas cs' ++ tl, bg)
                         /\ b' ++ concat cs' = rest /\ Forall nonempty cs').
-      { intros b0 Hp Hq. rewrite next_eq. unfold attempt. cbn [rerrored rreadable datas map].
+      { intros b0 Hp Hq. rewrite next_eq. unfold attempt. cbn [rerrored rreadable datas map app].
         destruct c as [|c0 c]; [unfold nonempty in Hc; congruence|].
         cbn [rbuf reof]. fold (datas cs).
-        apply (IH (b0 ++ c0 :: c) true f i rest bg Hv Hne').
+        apply (IH (b0 ++ c0 :: c) true f i rest bg tl Hv Hne').
         - rewrite <- app_assoc. exact Hq.
         - discriminate. }
       destruct rd.
@@ -92,6 +93,18 @@ Section Frag.
           rewrite next_eq. unfold attempt. cbn [rerrored rreadable reof rbuf]. rewrite (H2 f i b Hv Hp).
           rewrite next_eq in Hn. unfold attempt in Hn. cbn [rerrored rreadable] in Hn. exact Hn.
       + apply Hstep; auto.
+  Qed.
+
+  Lemma next_item : forall cs b rd f i rest bg,
+      valid f i -> Forall nonempty cs ->
+      b ++ concat cs = f ++ rest ->
+      (rd = false -> proper_prefix b f) ->
+      exists b' cs', next dec (mkR b false rd false) (datas cs) bg = (NItem i, mkR b' false true false, datas cs', bg)
+                     /\ b' ++ concat cs' = rest /\ Forall nonempty cs'.
+  Proof.
+    intros cs b rd f i rest bg Hv Hne Heq Hinv.
+    destruct (next_item_tl cs b rd f i rest bg [] Hv Hne Heq Hinv) as (b' & cs' & Hn & Hr).
+    rewrite !app_nil_r in Hn. eauto.
   Qed.
 
   (* nothing is delivered, and no byte is lost, while the frame is incomplete *)
